@@ -10,7 +10,9 @@
   with fuel `|names| + 2`; `Props/C19.lean` proves that this fuel is never exhausted.
 -/
 import Basyx.Model.AList
+import Basyx.Model.Fmt
 namespace Basyx.Files
+open Basyx.Fmt (pad4)
 
 abbrev Name := List Char
 abbrev Content := List Char      -- bytes, abstractly
@@ -28,11 +30,6 @@ deriving Repr, DecidableEq
 def init : St := ⟨[], [], []⟩
 
 /-! ### `_append_counter` -/
-
-/-- `"{:04d}".format(i)` -/
-def pad4 (i : Nat) : List Char :=
-  let d := Nat.toDigits 10 i
-  List.replicate (4 - d.length) '0' ++ d
 
 /-- split a list at the LAST occurrence of `c`: `(before, after)`; `none` if `c` does not occur. -/
 def splitLast (c : Char) : List Char → Option (List Char × List Char)
